@@ -61,14 +61,58 @@ impl Engine {
         for s in 0..self.handles.len() {
             self.close_slot(s)?;
         }
+        for h in std::mem::take(&mut self.stale) {
+            guard("h_close_stale", move || drop(h))?;
+        }
+        Ok(())
+    }
+
+    /// One call through a handle whose own stream was removed. Whatever it returns, it must
+    /// not panic and must leave every existing object as the model has it (the regular
+    /// comparisons after the step decide that).
+    fn stale_use(&mut self, k: u8, how: u8, data: &DataSpec) -> Result<(), Fail> {
+        if self.stale.is_empty() {
+            return Ok(());
+        }
+        let i = k as usize % self.stale.len();
+        self.stats.bump("stale_handle_op");
+        let bytes = data.bytes();
+        let what = ["read", "write_all+flush", "set_len", "seek+read", "write", "drop"][how as usize % 6];
+        if how % 6 == 5 {
+            let h = self.stale.remove(i);
+            self.trace.push(format!("stale[{}]: drop", i));
+            return guard("stale_drop", move || drop(h));
+        }
+        let h = &mut self.stale[i];
+        let shown = guard("stale_use", || -> String {
+            match how % 6 {
+                0 => {
+                    let mut b = vec![0u8; 300];
+                    format!("{:?}", h.read(&mut b).map_err(|e| e.kind()))
+                }
+                1 => format!("{:?}", h.write_all(&bytes).and_then(|_| h.flush()).map_err(|e| e.kind())),
+                2 => format!("{:?}", h.set_len(bytes.len() as u64).map_err(|e| e.kind())),
+                3 => {
+                    let mut b = vec![0u8; 5000];
+                    format!("{:?}", h.seek(SeekFrom::Start(0)).and_then(|_| h.read(&mut b)).map_err(|e| e.kind()))
+                }
+                _ => format!("{:?}", h.write(&bytes).map_err(|e| e.kind())),
+            }
+        })?;
+        self.trace.push(format!("stale[{}]: {} ({} bytes) -> {}", i, what, bytes.len(), shown));
         Ok(())
     }
 
     pub(crate) fn step_handle(&mut self, op: &Op) -> Result<(), Fail> {
         match op {
+            Op::HStaleUse { k, how, data } => return self.stale_use(*k, *how, data),
             Op::HOpen { slot, p } | Op::HCreate { slot, p } => {
                 let slot = *slot as usize % self.handles.len();
                 let create = matches!(op, Op::HCreate { .. });
+                if create && !self.stale.is_empty() {
+                    self.stats.excluded += 1;
+                    return Ok(());
+                }
                 let opk = if create { "create_stream" } else { "open_stream" };
                 let r = self.resolve(p);
                 if let NormPath::Ok(names) = &r.norm {
